@@ -296,6 +296,8 @@ def probe_attrs(sess, tx, exp_to, conc, res, okind):
     state = tx["from"] if tx["to"].get("same") else tx["to"]
     rnd = sess.rnd
     pick = rnd.choice
+    if rnd.random() < 0.6:
+        return          # a seeded 40 % of the reached states (two more reopens each)
     try:
         for o in state["objs"]:
             k = o["kind"]
